@@ -6,6 +6,7 @@ Case lines
                             store keeps the slot life cycle in bitmaps for keys aligned below a pointer and in tagged
                             pointers otherwise; the Coq model is key-type agnostic, the lines are the same)
                                 4 TSD<int,TSS<int>> (nested; no Coq model, oracle only) | 7 TSB{a,b,c:TS<int>} | 8 TSL<TS<int>,3>
+                                9 DURATION window TSW<int, time_range=p1, min_time_range=p2> (ops as TSW)
                            mode 0: stand-alone TSOutput, observed through TSOutputView
                            mode 1: the collection is the output of a scripted source node of a real graph run by the
                                    simulation executor; an ACTIVE probe node and a PASSIVE probe node (woken every smallest
@@ -49,7 +50,14 @@ PROP_KINDS = {"C05": {
     "tsd_resurrect_lost_modified", "tsd_modified_exact",
     "win_lastn", "win_valid", "win_delta", "win_evicted", "win_size", "shape", "crash",
     "notify", "fixed_step", "fixed_delta", "nested_step", "nested_child_step", "nested_unmodified_changed",
-}}
+    "win_cleared", "dwin_content",
+},
+ # C04 ("modified / valid / last-modified-time tell the truth"): only the kinds stating that a PER-TICK delta
+ # (removed_value / cleared / added / removed / modified sets / delta_value) is readable only in the cycle that
+ # produced it and tells the truth about that cycle - not the value-coherence kinds.
+ "C04": {"win_evicted", "win_cleared", "win_delta", "unmodified_delta", "delta_surface", "fixed_delta", "tsd_modified_exact",
+         "crash"},
+}
 # reported in the statistics only (suspected secondary findings, see docs/notes-coll.md):
 #   tsl_child_delta_unmodified, nested_resurrect_stale
 
@@ -228,10 +236,57 @@ def _gen_child_writes(rng, mode, i32, tier):
     return case
 
 
+def _gen_duration(rng, mode, tier):
+    """duration windows: pushes at increasing times whose gaps make the expired prefix advance the head, the ring wrap,
+    and then GROW (4 -> 8 -> 16) while it is wrapped; clears; rejected sequences."""
+    R = rng.randint(2, 12)
+    m = rng.choice([0, 0, 1, R // 2, R, R + 1])
+    case = [[1, 9, mode, R, m]]
+    t = rng.randint(1, 3)
+    n = rng.randint(4, 16 if tier == "quick" else 48)
+    v = 10
+
+    def push(tt, extra=None):
+        nonlocal v
+        v += 1
+        case.append([2, tt, 1, v, 0] + (extra or []))
+    if R >= 4 and rng.random() < 0.5:
+        # recipe: one old element, a cluster, a jump that expires exactly the old one (head advances, ring full and
+        # wrapped), then pushes that expire nothing (growth while wrapped)
+        d = rng.randint(2, R - 2)
+        push(t); push(t + d); push(t + d + 1); push(t + d + 2)
+        t5 = t + R + 1
+        if t5 > t + d + 2:
+            push(t5)
+            t = t5
+            for _ in range(rng.randint(1, 3)):
+                t += 1
+                push(t)
+        else:
+            t = t + d + 2
+    for _ in range(n):
+        r = rng.random()
+        t += rng.choice([1, 1, 1, 2, 3, max(1, R - 1), R, R + 1, 2 * R + 1]) if rng.random() < 0.6 else 1
+        if r < 0.78:
+            push(t)
+        elif r < 0.86:
+            case.append([2, t])
+        elif r < 0.90:
+            case.append([2, t, 3, 0, 0])
+        elif r < 0.95:
+            v += 1
+            case.append([2, t, 3, 0, 0, 1, v, 0])
+        else:
+            case.append([2, t] + rng.choice([[1, 5, 0, 1, 6, 0], [1, 5, 0, 3, 0, 0], [3, 0, 0, 3, 0, 0]]))
+    return case
+
+
 def gen(rng, tier, prop):
     r = rng.random()
-    kind = 1 if r < 0.30 else (2 if r < 0.62 else (3 if r < 0.76 else (4 if r < 0.86 else (7 if r < 0.93 else 8))))
+    kind = 1 if r < 0.28 else (2 if r < 0.58 else (3 if r < 0.69 else (9 if r < 0.79 else (4 if r < 0.87 else (7 if r < 0.935 else 8)))))
     mode = 1 if rng.random() < 0.4 else 0
+    if kind == 9:
+        return _gen_duration(rng, mode, tier)
     ncyc = rng.randint(2, 14 if tier == "quick" else 40)
     t = rng.randint(1, 3)
     if kind in (7, 8):
@@ -359,6 +414,8 @@ def oracle(prop, case, out):
         return _oracle_tsd(cycles, blocks) + _oracle_notify(blocks)
     if kind == 3:
         return _oracle_tsw(hdr[2], hdr[3], cycles, blocks) + _oracle_notify(blocks)
+    if kind == 9:
+        return _oracle_dwin(hdr[2], hdr[3], cycles, blocks) + _oracle_notify(blocks)
     if kind in (7, 8):
         return _oracle_fixed(cycles, blocks) + _oracle_notify(blocks)
     if kind == 4:
@@ -623,6 +680,72 @@ def _oracle_tsw(n, m, cycles, blocks):
             fails.append(("win_delta", "t=%d delta %s on a cycle without a push" % (t, d)))
         if (has_rem, remv) != ((1, evicted) if evicted is not None else (0, 0)):
             fails.append(("win_evicted", "t=%d removed value %s expected %s" % (t, (has_rem, remv), evicted)))
+        if cleared != int(any(c == 3 and r == 0 for (c, _a, _b), r in zip(ops, res))):
+            fails.append(("win_cleared", "t=%d cleared=%d but the accepted operations of this cycle are %s" % (t, cleared, [(o[0], r) for o, r in zip(ops, res)])))
+        if b.get(28, []) != vals:
+            fails.append(("value_surface", "t=%d value() %s vs values %s" % (t, b.get(28), vals)))
+    return fails
+
+
+def _oracle_dwin(R, m, cycles, blocks):
+    """duration window: the contents are the (time, value) pairs pushed since the last clear whose time is not older
+    than (now - R) at the moment of the last push, in push order; removed_value is the LAST element that expired in
+    this tick; valid (all_valid) once the span of the contents reaches the minimum range."""
+    fails = []
+    content = []                 # (time, value)
+    ever = False
+    for (t, ops), b in zip(cycles, blocks):
+        try:
+            h = b[20]
+            modified, valid, all_valid, size, has_rem, remv, cleared, first = h[1], h[2], h[3], h[5], h[9], h[10], h[11], h[12]
+            vals, tms = b[21], b[22]
+        except (KeyError, IndexError):
+            return fails + [("shape", "cycle %d: missing lines" % t)]
+        ticked = False
+        clearedc = False
+        res = []
+        evicted = None
+        pushed_now = None
+        for (c, a, _b) in ops:
+            if c == 1:
+                if ticked and not clearedc:
+                    res.append(2)
+                else:
+                    expired = [p for p in content if p[0] < t - R]
+                    if expired:
+                        evicted = expired[-1][1]
+                    content = [p for p in content if p[0] >= t - R] + [(t, a)]
+                    pushed_now = a
+                    ticked = True; clearedc = False; res.append(0)
+            elif c == 3:
+                if ticked:
+                    res.append(2)
+                else:
+                    content = []; ticked = True; clearedc = True; evicted = None; pushed_now = None; res.append(0)
+            else:
+                res.append(-1)
+        ever = ever or ticked
+        if vals != [p[1] for p in content] or tms != [p[0] for p in content]:
+            fails.append(("dwin_content", "t=%d window values %s times %s but the unexpired pushes are %s" % (t, vals, tms, content)))
+        if size != len(content) or first != (content[0][0] if content else 0):
+            fails.append(("win_size", "t=%d size/first time %s expected %s" % (t, [size, first], [len(content), content[0][0] if content else 0])))
+        want_valid = int(ever and bool(content) and (m <= 0 or content[-1][0] - content[0][0] >= m))
+        if all_valid != want_valid or valid != int(ever):
+            fails.append(("win_valid", "t=%d valid/all_valid=%d/%d with contents spanning %s, min range %d" % (t, valid, all_valid, [p[0] for p in content], m)))
+        if res != b[19]:
+            fails.append(("op_result", "t=%d results %s expected %s" % (t, b[19], res)))
+        if bool(modified) != ticked:
+            fails.append(("unmodified_delta", "t=%d modified=%d ticked=%s" % (t, modified, ticked)))
+        d = b.get(29, [0])
+        if ticked and pushed_now is not None:
+            if d != [1, pushed_now]:
+                fails.append(("win_delta", "t=%d delta %s but %d was pushed" % (t, d, pushed_now)))
+        elif d != [0]:
+            fails.append(("win_delta", "t=%d delta %s on a cycle without a push" % (t, d)))
+        if (has_rem, remv) != ((1, evicted) if evicted is not None else (0, 0)):
+            fails.append(("win_evicted", "t=%d removed value %s expected %s" % (t, (has_rem, remv), evicted)))
+        if cleared != int(any(c == 3 and r == 0 for (c, _a, _b), r in zip(ops, res)) and evicted is None):
+            fails.append(("win_cleared", "t=%d cleared=%d, accepted operations %s" % (t, cleared, [(o[0], r) for o, r in zip(ops, res)])))
         if b.get(28, []) != vals:
             fails.append(("value_surface", "t=%d value() %s vs values %s" % (t, b.get(28), vals)))
     return fails
@@ -800,6 +923,32 @@ def _events(case):
                     ev["set_erase_set"] += 1
         if len(nkeys) > 8:
             ev["growth"] += 1
+    elif kind == 9:
+        R = hdr[2]
+        content = []
+        cap = 0
+        head = 0
+        for t, ops in cycles:
+            ticked = clr = False
+            for (c, a, _v) in ops:
+                if c == 3 and not ticked:
+                    content = []; head = 0; ticked = clr = True; ev["clear"] += 1
+                elif c == 1 and (not ticked or clr):
+                    ticked, clr = True, False
+                    n0 = len(content)
+                    content = [x for x in content if x >= t - R]
+                    if cap:
+                        head = (head + n0 - len(content)) % cap
+                    if not content:
+                        head = 0
+                    if n0 != len(content):
+                        ev["dwin_expiry"] = ev.get("dwin_expiry", 0) + 1
+                    if len(content) + 1 > cap:
+                        if head != 0:
+                            ev["dwin_growth_while_wrapped"] = ev.get("dwin_growth_while_wrapped", 0) + 1
+                        cap = max(len(content) + 1, 4) if cap == 0 else max(len(content) + 1, 2 * cap)
+                        head = 0
+                    content.append(t)
     elif kind in (4, 7, 8):
         for t, ops in cycles:
             if not ops:
@@ -853,6 +1002,8 @@ def nontrivial(case, out):
     kind, ev = _events(case)
     if kind == 3:
         return ev["window_wrap"] > 0 or ev["window_below_min"] > 0
+    if kind == 9:
+        return ev.get("dwin_expiry", 0) > 0
     if kind in (4, 7, 8):
         return sum(1 for l in case if l and l[0] == 2 and len(l) > 2) >= 2
     return ev["cancel_add_remove"] + ev["cancel_remove_add"] + ev["reinsert_later_cycle"] > 0
@@ -862,7 +1013,7 @@ def stats(case, out):
     hdr, cycles = parse_case(case)
     kind, ev = _events(case)
     d = {"cases_tss": int(kind == 1), "cases_tsd": int(kind == 2), "cases_tsw": int(kind == 3), "cases_nested_tsd_tss": int(kind == 4),
-         "cases_tsb": int(kind == 7), "cases_tsl": int(kind == 8), "cases_graph_mode": int(hdr[1] == 1),
+         "cases_tsb": int(kind == 7), "cases_tsl": int(kind == 8), "cases_duration_tsw": int(kind == 9), "cases_graph_mode": int(hdr[1] == 1),
          "cases_int32_keys": int(kind in (1, 2, 4) and hdr[2] == 1), "growth_with_removal_cycles": _growth_removal(kind, cycles),
          "cycles": len(cycles), "mutations": sum(len(o) for _, o in cycles)}
     d.update(ev)
